@@ -65,6 +65,7 @@ type pwState struct {
 	errIs    map[ssa.Value]map[string]bool
 	boolval  map[ssa.Value]bool
 	fields   map[string]ssa.Value // "<base>#<field name>" -> last value stored on this path
+	loaded   map[*ssa.UnOp]ssa.Value // field loads executed on this path -> value read
 	visits   map[int]int
 	defers   []ssa.CallInstruction
 	trace    []string
@@ -79,6 +80,10 @@ func (s *pwState) clone() *pwState {
 	n.fields = map[string]ssa.Value{}
 	for k, v := range s.fields {
 		n.fields[k] = v
+	}
+	n.loaded = map[*ssa.UnOp]ssa.Value{}
+	for k, v := range s.loaded {
+		n.loaded[k] = v
 	}
 	for k, v := range s.counters {
 		n.counters[k] = v
@@ -119,11 +124,10 @@ func PathWalk(fn *ssa.Function, h Hooks) (paths int, truncated bool) {
 			depth++
 			v = mr.Canon(v)
 			if u, ok := v.(*ssa.UnOp); ok && u.Op == token.MUL {
-				if fa, ok := u.X.(*ssa.FieldAddr); ok {
-					if sv, ok := st.fields[fa.X.Name()+"#"+FieldAddrName(fa)]; ok {
-						v = sv
-						continue
-					}
+				// a field load is bound to the value the field held when the load executed
+				if sv, ok := st.loaded[u]; ok {
+					v = sv
+					continue
 				}
 			}
 			if p, ok := v.(*ssa.Phi); ok {
@@ -278,6 +282,19 @@ func PathWalk(fn *ssa.Function, h Hooks) (paths int, truncated bool) {
 				if h.Step != nil {
 					applyDelta(st, h.Step(in))
 				}
+			case *ssa.UnOp:
+				if x.Op == token.MUL {
+					if fa, ok := x.X.(*ssa.FieldAddr); ok {
+						if sv, ok := st.fields[fa.X.Name()+"#"+FieldAddrName(fa)]; ok {
+							st.loaded[x] = sv
+						} else {
+							delete(st.loaded, x)
+						}
+					}
+				}
+				if h.Step != nil {
+					applyDelta(st, h.Step(in))
+				}
 			case *ssa.Go:
 				// asynchronous: no effect on this path's counters
 			case *ssa.Call:
@@ -371,7 +388,7 @@ func PathWalk(fn *ssa.Function, h Hooks) (paths int, truncated bool) {
 			}
 		}
 	}
-	st := &pwState{fields: map[string]ssa.Value{}, counters: map[string]int{}, nilness: map[ssa.Value]bool{}, boolval: map[ssa.Value]bool{}, visits: map[int]int{}, errIs: map[ssa.Value]map[string]bool{}}
+	st := &pwState{loaded: map[*ssa.UnOp]ssa.Value{}, fields: map[string]ssa.Value{}, counters: map[string]int{}, nilness: map[ssa.Value]bool{}, boolval: map[ssa.Value]bool{}, visits: map[int]int{}, errIs: map[ssa.Value]map[string]bool{}}
 	walk(fn.Blocks[0], st, map[*ssa.Phi]ssa.Value{}, 0)
 	return
 }
